@@ -41,6 +41,7 @@ struct vc_shared {
     int nskip;
     uint64_t skip[VC_MAXSKIP];
     volatile int ubsan_flag;
+    char abort_cls[160];             /* set by vc_abort_case() before _exit(96) */
 };
 static struct vc_shared *vc_sh;
 static const char *vc_replay_key;     /* non-NULL in --replay mode */
@@ -161,6 +162,13 @@ static inline size_t vc_unhex(const char *h, unsigned char *out) {
     size_t n = 0; while (h[0] && h[1]) { unsigned v; sscanf(h, "%2x", &v); out[n++] = v; h += 2; } return n;
 }
 
+/* give up on the current case from inside (e.g. a progress budget was exceeded): the supervisor
+ * reports class cls for the published case and restarts past it */
+static void vc_abort_case(const char *cls) {
+    snprintf(vc_sh->abort_cls, sizeof vc_sh->abort_cls, "%s", cls);
+    fflush(stdout);
+    _exit(96);
+}
 /* ---------------- watchdog ---------------- */
 static unsigned long vc_wd_seq; static int vc_wd_ticks;
 static void vc_wd_handler(int sig) {
@@ -219,6 +227,7 @@ static int vc_main(int argc, char **argv, int (*worker)(int, char **)) {
         char cls[200];
         crashes++;
         if (WIFEXITED(st) && WEXITSTATUS(st) == 97 && vc_sh->hang_flag) snprintf(cls, sizeof cls, "hang:%s", vc_sh->label);
+        else if (WIFEXITED(st) && WEXITSTATUS(st) == 96 && vc_sh->abort_cls[0]) { snprintf(cls, sizeof cls, "%s", vc_sh->abort_cls); vc_sh->abort_cls[0] = 0; }
         else if (WIFSIGNALED(st)) snprintf(cls, sizeof cls, "crash:%s:%s", vc_signame(WTERMSIG(st)), vc_sh->label);
         else snprintf(cls, sizeof cls, "crash:exit%d:%s", WIFEXITED(st) ? WEXITSTATUS(st) : -1, vc_sh->label);
         if (!vc_sh->in_case) {
